@@ -13,6 +13,7 @@ package c12
 // nothing" is: no new agent, no new entry in ts.EventsList.
 
 import (
+	"encoding/json"
 	"fmt"
 	"net/http/httptest"
 	"os"
@@ -20,6 +21,7 @@ import (
 	"testing"
 	"time"
 
+	"Havoc/cmd/server"
 	"Havoc/pkg/handlers"
 	"Havoc/pkg/packager"
 
@@ -44,8 +46,13 @@ type Op struct {
 }
 
 type CaseH struct {
-	Cfg Cfg  `json:"cfg"` // configuration the listener is started with
-	Ops []Op `json:"ops"`
+	// Start: "operator-add" = the operator's Listener.Add package through DispatchEvent
+	// (no response headers: the dialog has none); "profile-start" = ts.ListenerStart with
+	// the configuration teamserver.go builds for a listener of the profile (response
+	// headers included).  Cfg.BehindRedir is the PROFILE's Demon.TrustXForwardedFor.
+	Start string `json:"start"`
+	Cfg   Cfg    `json:"cfg"` // configuration the listener is started with
+	Ops   []Op   `json:"ops"`
 }
 
 // ---------------------------------------------------------------------------- generator
@@ -183,6 +190,7 @@ func genEdit(t *rapid.T, cur Cfg) Edit {
 		what = append(what, kind)
 	}
 	e.What = strings.Join(what, "+")
+	e.Headers = noListSep(e.Headers)
 	return e
 }
 
@@ -193,9 +201,25 @@ func applyEdit(c Cfg, e Edit) Cfg {
 	return c
 }
 
+// noListSep: the operator protocol carries header and URI lists joined with ", "
+// (client and dispatch.go), so an element cannot contain that separator.
+func noListSep(in []string) []string {
+	var out []string
+	for _, s := range in {
+		out = append(out, strings.ReplaceAll(s, ", ", ","))
+	}
+	return out
+}
+
 func genH(t *rapid.T) CaseH {
 	var c CaseH
 	c.Cfg = genCfg(t)
+	c.Cfg.Headers = noListSep(c.Cfg.Headers)
+	c.Cfg.Uris = effectiveUris(c.Cfg) // the [""] form cannot be sent by an operator; (a) covers it
+	c.Start = rapid.SampledFrom([]string{"operator-add", "operator-add", "profile-start"}).Draw(t, "start")
+	if c.Start == "operator-add" {
+		c.Cfg.RespHeaders = nil
+	}
 	cur, prev := c.Cfg, c.Cfg
 	idx := 0
 	reqs := func(n int, afterEdit bool) {
@@ -223,7 +247,9 @@ func genH(t *rapid.T) CaseH {
 
 // ---------------------------------------------------------------------------- fixture
 
-func httpConfigOf(c Cfg) handlers.HTTPConfig {
+// profileConfigOf: what teamserver.go builds for an HTTP listener of the profile
+// (BehindRedir from Demon.TrustXForwardedFor, response headers from the listener block).
+func profileConfigOf(c Cfg) handlers.HTTPConfig {
 	hc := handlers.HTTPConfig{
 		Name: "c12h", Hosts: []string{"127.0.0.1"}, HostBind: "127.0.0.1", PortBind: "0", HostRotation: "round-robin",
 		BehindRedir: c.BehindRedir, UserAgent: c.UserAgent,
@@ -231,6 +257,30 @@ func httpConfigOf(c Cfg) handlers.HTTPConfig {
 	}
 	hc.Response.Headers = append([]string(nil), c.RespHeaders...)
 	return hc
+}
+
+// operatorInfo is the Info map of the client's Listener.Add / Listener.Edit package for
+// an HTTP listener (the keys cmd/server/dispatch.go reads; all values are strings, lists
+// joined with ", ").
+func operatorInfo(c Cfg) map[string]any {
+	return map[string]any{
+		"Name": "c12h", "Protocol": handlers.AGENT_HTTP, "Status": "online", "Secure": "false",
+		"Hosts": "127.0.0.1", "HostBind": "127.0.0.1", "HostRotation": "round-robin", "PortBind": "0", "PortConn": "",
+		"Headers": strings.Join(c.Headers, ", "), "Uris": strings.Join(c.Uris, ", "),
+		"UserAgent": c.UserAgent, "HostHeader": "", "Proxy Enabled": "false",
+	}
+}
+
+// operate feeds one operator package to the teamserver the way handleRequest does after
+// authentication (teamserver.go: CreatePackage, EventAppend, DispatchEvent).
+func operate(ts *server.Teamserver, sub int, info map[string]any) {
+	raw, _ := json.Marshal(map[string]any{
+		"Head": map[string]any{"Event": packager.Type.Listener.Type, "User": "op", "Time": "01/01/2026 00:00:00", "OneTime": ""},
+		"Body": map[string]any{"SubEvent": sub, "Info": info},
+	})
+	pk := packager.NewPackager().CreatePackage(string(raw))
+	ts.EventAppend(pk)
+	ts.DispatchEvent(pk)
 }
 
 func runH(c CaseH, report func(*core.Violation)) {
@@ -246,10 +296,22 @@ func runH(c CaseH, report func(*core.Violation)) {
 		panic(err)
 	}
 	defer tsx.CloseTS(ts)
-	if err := ts.ListenerStart(handlers.LISTENER_HTTP, httpConfigOf(c.Cfg)); err != nil {
-		panic(err)
+	if c.Start == "profile-start" {
+		if err := ts.ListenerStart(handlers.LISTENER_HTTP, profileConfigOf(c.Cfg)); err != nil {
+			panic(err)
+		}
+	} else {
+		operate(ts, packager.Type.Listener.Add, operatorInfo(c.Cfg))
 	}
-	h := ts.Listeners[0].Config.(*handlers.HTTP)
+	if len(ts.Listeners) != 1 {
+		report(core.V("hist|listener-not-started|"+c.Start, "%s of %+v left %d listeners", c.Start, c.Cfg, len(ts.Listeners)))
+		return
+	}
+	h, isHTTP := ts.Listeners[0].Config.(*handlers.HTTP)
+	if !isHTTP {
+		report(core.V("hist|listener-not-started|"+c.Start, "%s created a %T", c.Start, ts.Listeners[0].Config))
+		return
+	}
 	defer func() {
 		// close the socket Start() opened and join its goroutine: its last action is
 		// EventListenerError, which stamps the listener's retained "add" event with the error
@@ -290,9 +352,11 @@ func runH(c CaseH, report func(*core.Violation)) {
 	for i, op := range c.Ops {
 		if op.Edit != nil {
 			e := *op.Edit
-			hc := httpConfigOf(applyEdit(cur, e)) // the dialog's whole form; ListenerEdit picks UserAgent, Headers, Uris, Proxy
-			ts.ListenerEdit(handlers.LISTENER_HTTP, hc)
+			// the operator's Listener.Edit package (the dialog's whole form) through the real
+			// DispatchEvent -> ts.ListenerEdit.  The redirector flag is not part of the form: it
+			// stays what the profile says, which is what cur.BehindRedir holds.
 			cur = applyEdit(cur, e)
+			operate(ts, packager.Type.Listener.Edit, operatorInfo(cur))
 			edits++
 			lastEdit = e.What
 			continue
@@ -393,7 +457,20 @@ func classifyH(c CaseH) core.Class {
 			last = op.Edit.What
 		}
 	}
-	cl.Fingerprint = fmt.Sprintf("edits=%d|last=%s|%s", edits, strings.Split(last, "+")[0], fp)
+	xffAfterEdit := false
+	ed := 0
+	for _, op := range c.Ops {
+		if op.Edit != nil {
+			ed++
+		} else if op.Req != nil && ed > 0 && op.Req.XFF != "" && op.Req.Method == "POST" {
+			xffAfterEdit = true
+		}
+	}
+	cl.Labels = append(cl.Labels, "start:"+c.Start, fmt.Sprintf("trust-xff:%v", c.Cfg.BehindRedir))
+	if xffAfterEdit {
+		cl.Labels = append(cl.Labels, fmt.Sprintf("post-with-xff-after-edit|trust-xff:%v", c.Cfg.BehindRedir))
+	}
+	cl.Fingerprint = fmt.Sprintf("%s|trust=%v|edits=%d|last=%s|%s", c.Start, c.Cfg.BehindRedir, edits, strings.Split(last, "+")[0], fp)
 	return cl
 }
 
